@@ -506,6 +506,10 @@ func (x *Exec) assumeTypeInv(st State, guard Term, t Term, typ types.Type) {
 		x.C.Assume(guard, T(SBool, app("okslice", t.S, al.S)))
 	case SVal:
 		x.C.Assume(guard, T(SBool, app("okval", t.S, al.S)))
+		if it, ok := typ.Underlying().(*types.Interface); ok && it.NumMethods() > 0 {
+			// a value of a non-empty interface type is nil or holds a dynamic type implementing it
+			x.C.Assume(guard, Or(Eq(t, T(SVal, "nilv")), x.implementsTerm(t, typ)))
+		}
 	}
 }
 
